@@ -1000,6 +1000,7 @@ class _Streamer(mcasm.Streamer):
     def __init__(self, state: "_State"):
         self._state = state
         self._prevent_print_as_string_count = 0
+        self._pending_empty_string = False
         super().__init__()
 
     def _append_data(self, data: bytes, loc: mcasm.mc.SourceLocation) -> None:
@@ -1225,6 +1226,12 @@ class _Streamer(mcasm.Streamer):
         value: Union[mcasm.mc.Expr, bytes],
         type: Assembler.Result.DataType,
     ) -> None:
+        # A directive that emits nothing (.ascii "") has nothing to type;
+        # if a NUL follows, it was an empty .string (see below).
+        if isinstance(value, bytes) and not value:
+            self._pending_empty_string = True
+            return
+
         # gtirb can only apply an encoding to a data block, so we need for
         # this value to be in its own block.
         self._split_block()
@@ -1272,6 +1279,16 @@ class _Streamer(mcasm.Streamer):
         because LLVM's string parser calls emit_bytes twice for a
         NUL-terminated string -- once for the contents and once for the NUL.
         """
+
+        # An empty .string arrives as no bytes followed by the NUL, which
+        # then is the whole string.
+        if self._pending_empty_string:
+            self._pending_empty_string = False
+            if value == b"\x00":
+                self._emit_value_with_encoding(
+                    parser_state, value, Assembler.Result.DataType.String
+                )
+                return True
 
         # We required that:
         # - the value is a NUL
